@@ -198,6 +198,9 @@ def check(c):
             dg = np.array([np.diag(l_[d]) for d in range(D)])
             if not close(dg, const(np.ones(m), D), tol):
                 return 'lu-unit: L does not have a unit diagonal (1 + 0 t + ...)'
+            f = step_equations_fail('lu', a, (w, l_, u))
+            if f:
+                return f
             w0, l0, u0 = scipy.linalg.lu(a[0])
             if not (np.array_equal(w[0], w0) and np.array_equal(l_[0], l0) and np.array_equal(u[0], u0)):
                 return 'lu-zeroth: zeroth coefficients are not scipy.linalg.lu(A_0)'
@@ -235,7 +238,7 @@ def check(c):
 
 def step_equations_fail(kind, a, outs):
     """the order-d step equations that the Lean theorems (Proofs/Factor.lean) take as hypotheses,
-    evaluated on the implementation's output (square QR, Cholesky)"""
+    evaluated on the implementation's output (square QR, Cholesky, LU)"""
     D, n, m = a.shape
     if kind == 'qr' and n == m:
         q, r = outs
@@ -257,6 +260,14 @@ def step_equations_fail(kind, a, outs):
             Phi = np.tril(G, -1) + 0.5 * np.diag(np.diag(G))
             if not close(l_[d], -(l_[0] @ Phi), 1e-8):
                 return 'cholesky-step: the order-%d step equation of _cholesky (model of the theorem) does not hold on the output' % d
+    if kind == 'lu':
+        w, l_, u = outs
+        L0inv, U0inv = np.linalg.inv(l_[0]), np.linalg.inv(u[0])
+        for d in range(1, D):
+            dF = w[0].T @ a[d] - sum((l_[d - k] @ u[k] for k in range(1, d)), np.zeros((n, n)))
+            F_ = L0inv @ dF @ U0inv
+            if not close(u[d], np.triu(F_) @ u[0], 1e-8) or not close(l_[d], l_[0] @ np.tril(F_, -1), 1e-8):
+                return 'lu-step: the order-%d step equations of UTPM.lu (model of the theorem) do not hold on the output' % d
     return None
 
 
